@@ -316,6 +316,67 @@ def generate(lib_rs):
                         "Except Unit Bool", tb, "panic", mut_self=True,
                         doc="`MqttClient::update`: reset when the link is down, one step of the protocol state machine (the "
                             "`match self.state.state()`), then `poll()`; the result is `poll`'s, mapped to \"settings changed\"")
+    # ---- alive() / subscribe(): what is handed to minimq (skeleton-checked: topic suffix, payload, QoS, retain, no-local)
+    def same_fn(name, want_sig, want):
+        sig, text = M.find_fn(src, name)
+        if re.sub(r"\s+", " ", sig) != want_sig:
+            raise Unsupported(f"{name}(): signature {sig!r}")
+        got = M.parse_block(text)
+        if got != want:
+            raise Unsupported(f"{name}(): no longer the expected publication / subscription: {got!r}")
+    CLIENT = ("mcall", ("field", ("path", ["self"]), "mqtt"), "client", [])
+    same_fn("alive", "fn alive(&mut self) -> Result<(), minimq::PubError<Stack::Error, ()>>",
+            ("block",
+             [("let", ("pbind", "topic"), ("mcall", ("mcall", ("field", ("path", ["self"]), "prefix"), "try_into", []), "unwrap", [])),
+              ("semi", ("mcall", ("mcall", ("path", ["topic"]), "push_str", [("str", "/alive")]), "unwrap", [])),
+              ("let", ("pbind", "msg"),
+               ("mcall", ("mcall", ("call", ("path", ["Publication", "new"]),
+                                    [("unary", "&", ("path", ["topic"])), ("mcall", ("field", ("path", ["self"]), "alive"), "as_bytes", [])]),
+                          "qos", [("path", ["QoS", "AtLeastOnce"])]), "retain", []))],
+             ("mcall", CLIENT, "publish", [("path", ["msg"])])))
+    same_fn("subscribe", "fn subscribe(&mut self) -> Result<(), minimq::Error<Stack::Error>>",
+            ("block",
+             [("let", ("pbind", "settings"), ("mcall", ("mcall", ("field", ("path", ["self"]), "prefix"), "try_into", []), "unwrap", [])),
+              ("semi", ("mcall", ("mcall", ("path", ["settings"]), "push_str", [("str", "/settings/#")]), "unwrap", [])),
+              ("let", ("pbind", "opts"), ("mcall", ("call", ("path", ["SubscriptionOptions", "default"]), []), "ignore_local_messages", [])),
+              ("let", ("pbind", "topics"),
+               ("array", [("mcall", ("call", ("path", ["TopicFilter", "new"]), [("unary", "&", ("path", ["settings"]))]), "options", [("path", ["opts"])])]))],
+             ("mcall", CLIENT, "subscribe", [("unary", "&", ("path", ["topics"])), ("unary", "&", ("array", []))])))
+    # ---- dump(path): the API entry into a dump
+    sig, text = M.find_fn(src, "dump")
+    if re.sub(r"\s+", " ", sig) != "fn dump(&mut self, path: Option<&str>) -> Result<(), Error<Stack::Error>>":
+        raise Unsupported(f"dump(): signature {sig!r}")
+    dpb = M.parse_block(text)
+
+    def prep_dump(e):
+        if isinstance(e, tuple):
+            if e == ("field", ("path", ["self"]), "state"):
+                return ("path", ["state"])
+            if e == ("call", ("path", ["Path", "from"]), [("path", ["path"])]):
+                return ("path", ["path"])
+            return tuple(prep_dump(x) for x in e)
+        if isinstance(e, list):
+            return [prep_dump(x) for x in e]
+        return e
+    dpb = prep_dump(dpb)
+    tb = Tables(self_type="Cl", ctors=uctors, fns={"Multipart::default": ("denv.dflt", "pure")}, methods={
+        ("M", "root"): {"kind": "fmt", "fmt": "(denv.root {0} {1})", "ret": "M", "err": "RootErr"},
+    }, consts={}, vartypes={"state": "StateM", "m": "M", "path": "OptStr"}, structs={"Self": "(Cl E Es M X)"})
+    tb.effects = {
+        ("mcall", "state", "process_event"): {
+            "fmt": "(let r := processEvent env self {0}; ((match r.1 with | some u => Except.ok u | none => Except.error ApiErr.State), r.2))",
+            "pair": "self", "ret": "SmErr"},
+    }
+    tb.try_into = {"RootErr": "ApiErr.Traversal"}
+    out += ["/-- why `MqttClient::dump` refuses: `Error::Miniconf(Traversal)` from `root()`, or `Error::State` from the state machine -/",
+            "inductive ApiErr where", "  | Traversal", "  | State", "  deriving DecidableEq, Repr, Inhabited",
+            "/-- `Multipart::default()` and `Multipart::root(path)` -/",
+            "structure DEnv (M : Type) where", "  dflt : M", "  root : M → Str → Except Unit M", ""]
+    out += translate_fn(dpb, "dump",
+                        "{E Es M X : Type} (env : Env E Es M) (denv : DEnv M) (self : Cl E Es M X) (path : Option Str)",
+                        "Except ApiErr Unit", tb, "panic", mut_self=True,
+                        doc="`MqttClient::dump(path)`: a fresh walk, rooted at `path` if given; the `Multipart` event must be "
+                            "accepted by the protocol state machine; only then is the pending request replaced")
     # ---- iter_list(): one pass of its `while can_publish { .. }` loop
     sig, text = M.find_fn(src, "iter_list")
     lb = M.parse_block(text)
